@@ -143,3 +143,91 @@ func checkShebangFromFormattedBytes(p *Prog, r *Result, rule string) int {
 	}
 	return n
 }
+
+// R36g: the file mode formats what is in the file. formatPath fills readBuf in two steps (a short read to sniff the
+// shebang, then the rest of the file); whatever goes into readBuf must be exactly what was read, because formatBytes
+// compares its input with the formatted output to decide "differs", and -w writes that output back: a transformed
+// copy (a stripped byte-order mark, say) makes the file mode format other bytes than `shfmt <file` does. Every
+// readBuf.Write(x) has x = buf[:n] where n is the count returned by a read into buf, and every other fill of readBuf is
+// io.Copy/io.CopyBuffer from the opened file.
+func checkFileBytesUntouched(p *Prog, r *Result, rule string) int {
+	pkg := p.Pkg("cmd/shfmt")
+	info := pkg.TypesInfo
+	fd := p.FuncDecl("cmd/shfmt", "formatPath")
+	if fd == nil {
+		r.Fatalf("anchor cmd/shfmt.formatPath not found")
+		return 0
+	}
+	// the buffer handed to formatBytes
+	var bufName string
+	ast.Inspect(fd.Body, func(m ast.Node) bool {
+		if c, ok := m.(*ast.CallExpr); ok && len(c.Args) >= 1 {
+			if callee := calleeOf(info, c); callee != nil && callee.Name() == "formatBytes" {
+				if bc, ok := ast.Unparen(c.Args[0]).(*ast.CallExpr); ok {
+					if se, ok := ast.Unparen(bc.Fun).(*ast.SelectorExpr); ok && se.Sel.Name == "Bytes" {
+						bufName = exprString(se.X)
+					}
+				}
+			}
+		}
+		return true
+	})
+	if bufName == "" {
+		r.Undecided(rule, "cmd/shfmt.formatPath#what formatBytes receives", fd.Pos(), "formatBytes is not given <buffer>.Bytes()")
+		return 0
+	}
+	n := 0
+	seen := map[string]int{}
+	ast.Inspect(fd.Body, func(m ast.Node) bool {
+		c, ok := m.(*ast.CallExpr)
+		if !ok {
+			return true
+		}
+		se, isSel := ast.Unparen(c.Fun).(*ast.SelectorExpr)
+		callee := calleeOf(info, c)
+		switch {
+		case isSel && exprString(se.X) == bufName && strings.HasPrefix(se.Sel.Name, "Write") && len(c.Args) == 1:
+			n++
+			key := fmt.Sprintf("cmd/shfmt.formatPath#%s receives exactly what was read", exprString(c))
+			seen[key]++
+			if seen[key] > 1 {
+				key += fmt.Sprintf("#%d", seen[key])
+			}
+			okArg := false
+			if sl, ok := ast.Unparen(c.Args[0]).(*ast.SliceExpr); ok && sl.Low == nil && sl.High != nil {
+				if id, ok := ast.Unparen(sl.High).(*ast.Ident); ok {
+					if def := singleDef(info, fd, info.ObjectOf(id)); def != nil {
+						if rc, ok := ast.Unparen(def).(*ast.CallExpr); ok {
+							// n, err := io.ReadAtLeast(f, buf[:k], m) / f.Read(buf)
+							for _, a := range rc.Args {
+								if strings.HasPrefix(exprString(a), exprString(sl.X)) {
+									okArg = true
+								}
+							}
+						}
+					}
+				}
+			}
+			r.Check(okArg, rule, key, c.Pos(), "the slice the preceding read filled, up to the count it returned",
+				fmt.Sprintf("%s is filled with %s, which is not the slice a read just filled: the file mode then formats, compares and writes back other bytes than the file holds (and than `shfmt <file` formats)", bufName, exprString(c.Args[0])))
+		case callee != nil && (qualName(callee) == "io.Copy" || qualName(callee) == "io.CopyBuffer") && len(c.Args) >= 2 && strings.Contains(exprString(c.Args[0]), bufName):
+			n++
+			key := fmt.Sprintf("cmd/shfmt.formatPath#%s copies from the opened file", exprString(c.Fun))
+			src := ast.Unparen(c.Args[1])
+			okSrc := false
+			if id, ok := src.(*ast.Ident); ok {
+				if def := singleDef(info, fd, info.ObjectOf(id)); def != nil {
+					if oc, ok := ast.Unparen(def).(*ast.CallExpr); ok {
+						if cal := calleeOf(info, oc); cal != nil && (qualName(cal) == "os.Open" || qualName(cal) == "os.OpenFile") {
+							okSrc = true
+						}
+					}
+				}
+			}
+			r.Check(okSrc, rule, key, c.Pos(), "the source is the file opened from the path",
+				"the rest of the buffer is not copied straight from the opened file: the file mode formats other bytes than the file holds")
+		}
+		return true
+	})
+	return n
+}
